@@ -374,6 +374,8 @@ pub struct Model {
     pub stmt_garbage: Option<(usize, Vec<Vec<Val>>)>,
     /// checkpoints (flush / VACUUM / reopen) so far, and the value it had when each row got its delete mark
     pub ckpt_epoch: u32,
+    /// a trailing column was dropped while rows of the old shape exist (they keep their stored layout)
+    pub old_shape_rows: bool,
     /// transactions that had written when a checkpoint ran (crash checks only)
     pub ckpt_writers: BTreeSet<Tx>,
     #[serde(skip)]
@@ -436,6 +438,7 @@ impl Model {
             inplace_dirty: false,
             stmt_garbage: None,
             ckpt_epoch: 0,
+            old_shape_rows: false,
             ckpt_writers: BTreeSet::new(),
             delete_epoch: BTreeMap::new(),
             pending_update: BTreeSet::new(),
@@ -1047,7 +1050,14 @@ impl Model {
                 let ti = self.find_table(t, table).ok_or(ErrClass::Bind)?;
                 let mut def = self.def_for(t, &self.tables[ti]).clone();
                 let ci = def.col_idx(col).ok_or(ErrClass::Bind)?;
-                self.hazard(KF_DROP_COLUMN);
+                // The rows keep their stored layout (listed finding). Dropping the LAST column is the one shape that leaves
+                // them readable: the new schema is a prefix of the stored one. Judged when nobody else is around.
+                let trailing_alone = ci + 1 == def.cols.len() && !self.txs[t as usize].explicit && self.active_txs().len() <= 1;
+                if !trailing_alone {
+                    self.hazard(KF_DROP_COLUMN);
+                } else if !self.tables[ti].rows.is_empty() {
+                    self.old_shape_rows = true;
+                }
                 def.cols.remove(ci);
                 def.uniques.retain(|u| !u.contains(col));
                 let vis = self.visible_rows(t, ti);
@@ -1119,6 +1129,10 @@ impl Model {
             Op::Vacuum => {
                 self.maint_trail.push('V');
                 self.ckpt_epoch += 1;
+                if self.old_shape_rows {
+                    // VACUUM re-encodes rows with the current schema: rows of the old shape trip it (same listed finding)
+                    self.hazard(KF_DROP_COLUMN);
+                }
             }
             Op::Reopen => {
                 self.maint_trail.push('R');
